@@ -29,4 +29,12 @@ if 'go func' in s or '<-' in s.replace('<-chan', '').replace('ctx.Done()', ''):
     if 'go func' in s or left:
         sys.stderr.write("rewrite_memdb: unhandled goroutine / channel operation: %r\n" % (left[:2],))
         sys.exit(1)
+# VerifQuiesce waits until every traversal goroutine started before the controlled run has released the read
+# lock (an iterator's goroutine unlocks after it has closed the channel, i.e. possibly after Close returned).
+s += """
+func (db *MemDB) VerifQuiesce() {
+	db.mtx.Lock()
+	db.mtx.Unlock() //nolint:staticcheck
+}
+"""
 open(dst, "w").write(s)
